@@ -33,6 +33,9 @@ fn build_tree(root: &Path) -> Tree {
     for f in files {
         std::fs::write(root.join(f), f.as_bytes()).unwrap();
     }
+    // a .gz sibling that exists, is not a directory and is not a regular file either
+    std::fs::write(base.join("dev"), b"base/dev").unwrap();
+    std::os::unix::fs::symlink("/dev/null", base.join("dev.gz")).unwrap();
     let mut names = HashMap::new();
     fn walk(p: &Path, rel: &str, names: &mut HashMap<(u64, u64), String>) {
         let m = std::fs::metadata(p).unwrap();
@@ -116,7 +119,7 @@ pub fn run(cases_path: &str, out_path: &str) {
                     Err(_) => (false, -1),
                 };
                 json!({"k": "node", "ent_ok": ent_ok, "ent_len": ent_len, "size": m.len(), "name": tree.names.get(&(m.dev(), m.ino())).cloned().unwrap_or_else(|| "?outside".into()),
-                       "dir": m.is_dir(), "enc": enc, "varies": varies,
+                       "dir": m.is_dir(), "reg": m.is_file(), "enc": enc, "varies": varies,
                        "ce": hd.get("content-encoding").map(|v| String::from_utf8_lossy(v.as_bytes()).to_string()).unwrap_or_default(),
                        "vary": hd.get("vary").map(|v| String::from_utf8_lossy(v.as_bytes()).to_ascii_lowercase()).unwrap_or_default()})
             }
